@@ -167,6 +167,35 @@ class Loader:
                 return n
         raise core.Inconclusive("function %s.%s not found (anchor missing)" % (modname, fname))
 
+    def slice_function(self, modname, fname, first, last, params, returns, name="_slice", extra_globals=None):
+        """Cut a statement range out of a function's body (top-level statements of that function) by structural anchors
+        and compile it as a function of its free variables.  first/last: predicates on (ast stmt, source text).
+        The sliced statements are the repository's own text; a missing anchor is an Inconclusive (exit 3), never a pass."""
+        fn = self.func_ast(modname, fname)
+        src = self.source(modname)
+        body = fn.body
+        i0 = next((i for i, st in enumerate(body) if first(st, ast.get_source_segment(src, st) or "")), None)
+        if i0 is None:
+            raise core.Inconclusive("slice anchor (first) not found in %s.%s" % (modname, fname))
+        i1 = next((i for i in range(i0, len(body)) if last(body[i], ast.get_source_segment(src, body[i]) or "")), None)
+        if i1 is None:
+            raise core.Inconclusive("slice anchor (last) not found in %s.%s" % (modname, fname))
+        stmts = body[i0:i1 + 1]
+        ret = ast.Return(value=ast.Tuple(elts=[ast.Name(id=r, ctx=ast.Load()) for r in returns], ctx=ast.Load()))
+        f = ast.FunctionDef(name=name, args=ast.arguments(posonlyargs=[], args=[ast.arg(arg=p) for p in params], kwonlyargs=[], kw_defaults=[], defaults=[]),
+                            body=list(stmts) + [ret], decorator_list=[], type_params=[])
+        mod = ast.Module(body=[f], type_ignores=[])
+        ast.fix_missing_locations(mod)
+        m = self.load(modname)
+        ns = dict(m.__dict__)
+        if extra_globals:
+            ns.update(extra_globals)
+        exec(compile(mod, self.path(modname), "exec"), ns)
+        seg = "\n".join(src.split("\n")[stmts[0].lineno - 1:stmts[-1].end_lineno])
+        info = {"module": "tangermeme/" + modname.replace(".", "/") + ".py", "function": fname + " (statement range)",
+                "lines": [stmts[0].lineno, stmts[-1].end_lineno], "sha1": hashlib.sha1(seg.encode()).hexdigest()}
+        return ns[name], info
+
     def func_info(self, modname, fname):
         n = self.func_ast(modname, fname)
         seg = "\n".join(self.source(modname).split("\n")[n.lineno - 1:n.end_lineno])
